@@ -15,6 +15,8 @@
 //	  sc        1: the origin's response says Connection: close
 //	  H         length of the response head in bytes (derived; checked on replay)
 //	  [:d<ms>]  the dial error is reported / the origin answers only after ms milliseconds
+//	  [:q<c|k|r|j>]  the request carries a body: opaque by Content-Length / chunked, or one that reads like a complete
+//	            HTTP request by Content-Length / chunked (also for CONNECT)
 //
 //	       tseq | tpipe: the script runs INSIDE a CONNECT tunnel through the MITM-enabled proxy after a TLS handshake
 //	       (origins speak TLS); hseq | hpipe: inside such a tunnel in plain HTTP (the proxy's non-TLS branch)
@@ -298,6 +300,11 @@ type exch struct {
 	SC      bool
 	H       int
 	Delay   int // ms before the failure (dial error) or the origin's answer
+	// ReqBody: what the request carries as a body - "" (nothing; POST: a short
+	// Content-Length body), "c"/"k": an opaque body by Content-Length / chunked,
+	// "r"/"j": the same framings with a body that reads like a complete HTTP
+	// request (if it were left in the connection it would be executed)
+	ReqBody string
 }
 
 var garbage = [][]byte{
@@ -381,6 +388,9 @@ func (e *exch) token() string {
 	if e.Delay > 0 {
 		d = fmt.Sprintf(":d%d", e.Delay)
 	}
+	if e.ReqBody != "" {
+		d += ":q" + e.ReqBody
+	}
 	return fmt.Sprintf("Y:%d:%c:%d:%d:%s:%d:%s:%d:%d:%d", e.ID, e.Meth, b2i(e.RC), b2i(e.V10), oc, e.Status, fr, e.BodyLen, b2i(e.SC), len(e.head())) + d
 }
 
@@ -393,16 +403,23 @@ func b2i(b bool) int {
 
 func parseExch(t string) (*exch, error) {
 	f := strings.Split(t, ":")
-	if (len(f) != 11 && len(f) != 12) || f[0] != "Y" || len(f[2]) != 1 {
+	if len(f) < 11 || len(f) > 13 || f[0] != "Y" || len(f[2]) != 1 {
 		return nil, fmt.Errorf("bad exchange token")
 	}
 	e := &exch{Meth: f[2][0], RC: f[3] == "1", V10: f[4] == "1", SC: f[9] == "1"}
-	if len(f) == 12 {
-		d, err := strconv.Atoi(strings.TrimPrefix(f[11], "d"))
-		if err != nil || d < 0 || d > 5000 {
-			return nil, fmt.Errorf("bad delay")
+	for _, opt := range f[11:] {
+		switch {
+		case strings.HasPrefix(opt, "d"):
+			d, err := strconv.Atoi(opt[1:])
+			if err != nil || d < 0 || d > 5000 {
+				return nil, fmt.Errorf("bad delay")
+			}
+			e.Delay = d
+		case opt == "qc" || opt == "qk" || opt == "qr" || opt == "qj":
+			e.ReqBody = opt[1:]
+		default:
+			return nil, fmt.Errorf("bad option")
 		}
-		e.Delay = d
 	}
 	var err error
 	if e.ID, err = strconv.Atoi(f[1]); err != nil {
@@ -485,7 +502,7 @@ func (e *exch) request(origin string, inTunnel bool) []byte {
 		target = fmt.Sprintf("delay%d.%s.invalid:80", e.Delay, e.Outcome)
 	}
 	if e.Meth == 'C' {
-		return []byte(fmt.Sprintf("CONNECT %s HTTP/1.1\r\nHost: %s\r\nUser-Agent: verif\r\n\r\n", target, target))
+		return append([]byte(fmt.Sprintf("CONNECT %s HTTP/1.1\r\nHost: %s\r\nUser-Agent: verif\r\n", target, target)), e.reqBodyWire(origin)...)
 	}
 	m := map[byte]string{'G': "GET", 'P': "POST", 'H': "HEAD"}[e.Meth]
 	v := "1.1"
@@ -504,13 +521,36 @@ func (e *exch) request(origin string, inTunnel bool) []byte {
 	case !e.RC && e.V10:
 		b.WriteString("Connection: keep-alive\r\n")
 	}
-	if e.Meth == 'P' {
-		body := fmt.Sprintf("data-%d", e.ID)
-		fmt.Fprintf(&b, "Content-Length: %d\r\n\r\n%s", len(body), body)
-	} else {
-		b.WriteString("\r\n")
-	}
+	b.Write(e.reqBodyWire(origin))
 	return b.Bytes()
+}
+
+// reqBody: the body the request carries (nil: none).
+func (e *exch) reqBody(origin string) []byte {
+	switch e.ReqBody {
+	case "c", "k":
+		return []byte(fmt.Sprintf("opaque-body-%d-hello", e.ID))
+	case "r", "j":
+		// a complete request for an exchange nobody scripted: executed, it
+		// shifts every later answer by one
+		return []byte(fmt.Sprintf("GET http://%s/r9999 HTTP/1.1\r\nHost: %s\r\nAccept-Encoding: identity\r\n\r\n", origin, origin))
+	}
+	if e.Meth == 'P' {
+		return []byte(fmt.Sprintf("data-%d", e.ID))
+	}
+	return nil
+}
+
+// reqBodyWire: framing header, end of head, body.
+func (e *exch) reqBodyWire(origin string) []byte {
+	body := e.reqBody(origin)
+	switch {
+	case body == nil:
+		return []byte("\r\n")
+	case e.ReqBody == "k" || e.ReqBody == "j":
+		return append([]byte("Transfer-Encoding: chunked\r\n\r\n"), p1x.ChunkEncode(body, []int{7, 300})...)
+	}
+	return append([]byte(fmt.Sprintf("Content-Length: %d\r\n\r\n", len(body))), body...)
 }
 
 const sentinel = "/__verif_sentinel"
@@ -523,6 +563,14 @@ func idleNow() time.Duration {
 		return idle / 8
 	}
 	return idle
+}
+
+// hostOf: the Host header of a request the origin received (its own address).
+func hostOf(m *p1x.Msg) string {
+	if v := p1x.Vals(m.Hdrs, "Host"); len(v) > 0 {
+		return v[0]
+	}
+	return ""
 }
 
 func methodName(m byte) string {
@@ -607,6 +655,15 @@ func runUF(in []string) (out []string) {
 		if e == nil || i < 0 {
 			return p1x.Action{Bytes: []byte("HTTP/1.1 500 Unexpected\r\nContent-Length: 0\r\nConnection: close\r\n\r\n"), Close: true}
 		}
+		// the origin must get the request the client wrote for this marker: its
+		// method and its body, not a neighbour's leftovers
+		wantMeth := methodName(e.Meth)
+		if e.Meth == 'C' {
+			wantMeth = "GET" // the request sent through an established tunnel
+		}
+		if m.Method != wantMeth || (e.Meth != 'C' && !bytes.Equal(m.Body, e.reqBody(hostOf(m)))) {
+			return p1x.Action{Bytes: []byte("HTTP/1.1 500 Unexpected Request\r\nContent-Length: 0\r\nConnection: close\r\n\r\n"), Close: true}
+		}
 		if e.Delay > 0 {
 			time.Sleep(time.Duration(e.Delay) * time.Millisecond)
 		}
@@ -630,7 +687,7 @@ func runUF(in []string) (out []string) {
 		}
 	}()
 	newOrigin := func() *p1x.Origin {
-		o, err := p1x.NewOrigin(false, nil)
+		o, err := p1x.NewOrigin(true, nil)
 		if err != nil {
 			return nil
 		}
